@@ -99,13 +99,24 @@ RULE = ("random gridded forecasts of shape (1..40)x(1..8), rates 10^U(-12,3) (cl
         "scaled by a factor of any kind scale() documents (python / numpy scalars, 0-d, (1,1), per-cell (n,1), per-magnitude "
         "(m,) and (1,m), per-bin (n,m) arrays, scale_to_test_date) after 0-2 earlier factors, 25% are re-scaled by another such "
         "factor between the tests; the rates under test are stored x last factor computed by the harness (forecast.data must "
-        "agree), totals and per-event rates are read before and after every re-scaling. A case is non-trivial when "
+        "agree), totals and per-event rates are read before and after every re-scaling; round 5 (owners): magnitude grids with "
+        "starts and steps of every decimal length (0.125, 0.05, 0.025, 2^-k, 1/3, 0.15, negative starts), forecast.magnitudes / "
+        "region.magnitudes equal to the supplied edges bit for bit; observed catalogs in every region state (none, same object, "
+        "equal copy, magnitude-less with the same cells / the cells in another order / more cells, a space-magnitude region with "
+        "other edges): the forecast's region decides, the region bound by L / CL must have the forecast's cells in its order and "
+        "its edges; calls on which unchanged pyCSEP departs are named in AWAITING_DECISION. A case is non-trivial when "
         "some bin holds >= 2 events and N_obs != N_fore; distinct by (rate bits, counts).")
 
 MODES = ("L", "CL", "S", "M")
 # input classes on which the unchanged code misbehaves and whose treatment is undecided: none at present (the region
 # fallback of the L / CL tests was repaired in /repo, D40, and is part of the generators now)
-AWAITING_DECISION = []
+# round 5 (owners), two genuine-defect candidates on unchanged /repo (witnesses + proposed patch in notes/C05.md); the call classes
+# are generated but those calls are not executed, everything else on the same catalogs is:
+#   s-test-on-catalog-own-spatial-region          spatial_test grids the catalog on the catalog's OWN region without checking that it is
+#                                                 the forecast's: other cell order -> silently permuted counts, other cell set -> IndexError
+#   catalog-own-space-magnitude-region-differs    likelihood_test / conditional_likelihood_test trust a space-magnitude region the catalog
+#                                                 already carries even if its cells / magnitude edges are not the forecast's
+AWAITING_DECISION = ["s-test-on-catalog-own-spatial-region", "catalog-own-space-magnitude-region-differs"]
 # budget of the chained Lean op (Soft64 weights + placement are exact rational arithmetic): bins * events * simulations
 CHAIN_BUDGET = 12000
 # memory layouts of the forecast's 2-D rate array (same values, same shape): C-contiguous, Fortran-ordered, the transposed
@@ -289,7 +300,7 @@ def _gen_spec(rng, tier):
         events=[[e[0], e[1], e[2].hex(), e[3].hex(), e[4].hex()] + e[5:] for e in events],
         layout=rng.choice(LAYOUTS) if rng.random() < 0.45 else "C",
         nx=nx, dh=rng.choice([0.1, 0.5, 1.0]), x0=float(rng.randint(-20, 20)), y0=float(rng.randint(-20, 20)),
-        m0=rng.choice([2.5, 4.0, 4.95]), dm=rng.choice([0.1, 0.5, 1.0]),
+        m0=rng.choice(MAG_STARTS), dm=rng.choice(MAG_STEPS),
         nsim=rng.choice([1, 2, 3]) if tier == "quick" else rng.choice([1, 2, 3, 5]),
         rn_seed=rng.randrange(2 ** 32), l_seed=rng.randrange(2 ** 31), same_region=rng.random() < 0.5,
         rn_edge=rng.random() < 0.2, fscale=rng.choice([None, None, None, 2.0, 0.5, 10.0, 3.0, 0.1]),
@@ -297,7 +308,12 @@ def _gen_spec(rng, tier):
     # round 4: what region the catalog is bound to (None = the forecast's / an equal copy as before; "none" = no region at
     # all: only the M-test is defined for it; "spatial-only" = a region without magnitudes: S- and M-test), the array dtype,
     # and a rare long verbose run (>= 100 simulations, progress printing on)
-    spec["cat_region"] = rng.choice([None] * 8 + ["none", "spatial-only"])
+    # round 5 (owners): every state an observed catalog can come in - besides the forecast's own region object / an equal copy:
+    # no region, a spatial-only region with the SAME cells in the same order, with the same cells in ANOTHER order
+    # (`spatial-perm`), with MORE cells than the forecast's covering the events (`spatial-superset`), and a space-magnitude region
+    # of its own with OTHER magnitude edges (`sm-othermags`). The forecast's region decides what the observed counts are.
+    spec["cat_region"] = rng.choice([None] * 10 + ["none", "none", "spatial-only", "spatial-only", "spatial-perm", "spatial-perm",
+                                                   "spatial-superset", "sm-othermags"])
     spec["dtype"] = dtype
     if dtype == "int64":
         spec["fscale"] = None
@@ -316,6 +332,12 @@ def _gen_spec(rng, tier):
         spec["rescale_after"] = _gen_factor(rng)
     return spec
 
+
+# magnitude grids: starts and steps of every decimal length (one, two, THREE decimals, dyadic 2^-k, 1/3-style steps that no
+# decimal writes, negative starts). The edges are the ones the USER hands to the forecast / region constructors: a space-magnitude
+# region must bin on exactly those (after construction `forecast.magnitudes` / `region.magnitudes` equal them bit for bit).
+MAG_STARTS = [2.5, 4.0, 4.95, 4.0, 4.125, 5.005, -1.0, -0.75, 0.0, 1.0 / 3.0, 3.3, 5.95]
+MAG_STEPS = [0.1, 0.5, 1.0, 0.1, 0.125, 0.05, 0.025, 0.0625, 1.0 / 3.0, 0.2, 0.3, 0.15, 2.0 ** -7, 0.001 * 125]
 
 _BUILD_INFO = {}
 # what `GriddedDataSet.scale(val)` documents as legal: "int, float, or ndarray". Scalar-like kinds and arrays of every shape
@@ -456,13 +478,33 @@ def _build(spec):
             ndup += 1
         cnt[i, j] += 1
     cat_region = fore.region if spec["same_region"] else CartesianGrid2D.from_origins(origins, dh=dh, magnitudes=mags)
-    if spec.get("cat_region") == "none":
+    cr_ = spec.get("cat_region")
+    if cr_ == "none":
         cat_region = None
-    elif spec.get("cat_region") == "spatial-only":
+    elif cr_ == "spatial-only":
         cat_region = CartesianGrid2D.from_origins(origins, dh=dh)
+    elif cr_ == "spatial-perm":
+        # the same cells in another order (reversed, or a seeded shuffle): cell k of this region is not cell k of the forecast
+        perm = numpy.arange(ns)[::-1] if spec["rn_seed"] % 2 else numpy.random.default_rng(spec["rn_seed"]).permutation(ns)
+        cat_region = CartesianGrid2D.from_origins(origins[perm].copy(), dh=dh)
+    elif cr_ == "spatial-superset":
+        # more cells than the forecast has (a further row of the same lattice below it, listed FIRST): indices are shifted
+        extra = numpy.array([[spec["x0"] + dh * k, spec["y0"] - dh] for k in range(nx)])
+        cat_region = CartesianGrid2D.from_origins(numpy.vstack([extra, origins]), dh=dh)
+    elif cr_ == "sm-othermags":
+        # a space-magnitude region of its own: same cells, other magnitude edges (shifted by half a bin, one edge more)
+        cat_region = CartesianGrid2D.from_origins(origins, dh=dh, magnitudes=[spec["m0"] + spec["dm"] * (k - 0.5) for k in range(nm + 1)])
     cat = CSEPCatalog(data=ev, region=cat_region, name="catalog")
     _BUILD_INFO["duplicates"] = ndup
     return fore, cat, data, cnt
+
+
+def _same_cells(r1, r2):
+    """two spatial regions with the same cells in the same order"""
+    try:
+        return numpy.array_equal(numpy.asarray(r1.origins(), dtype=float), numpy.asarray(r2.origins(), dtype=float))
+    except Exception:
+        return False
 
 
 def _same_rates(fore, data):
@@ -556,6 +598,16 @@ def _eval_case(run, drv, pending, spec, tag="gen"):
     if not _same_rates(fore, data):
         run.oracle_failure(case, "forecast.data is not the stored rates times the factor set last (elementwise)")
         return
+    # the magnitude edges of the forecast and of its space-magnitude region are the ones the user supplied, bit for bit
+    want_m = [spec["m0"] + spec["dm"] * k for k in range(nm)]
+    for what, got in (("forecast.magnitudes", getattr(fore, "magnitudes", None)),
+                      ("forecast.region.magnitudes", getattr(fore.region, "magnitudes", None))):
+        got = None if got is None else [float(x) for x in numpy.ravel(got)]
+        if got is None or len(got) != nm or any(_bits(a) != _bits(b) for a, b in zip(got, want_m)):
+            run.oracle_failure(case, f"{what} = {None if got is None else got[:5]} is not the list of magnitude edges the forecast was "
+                                     f"built with {want_m[:5]}")
+            return
+    run.count(f"mag-step-{spec['dm']!r}"[:28])
     calls = [("CL", "inject"), ("S", "inject"), ("M", "inject"), ("L", "inject1"), ("L", "seed")]
     creg = spec.get("cat_region")
     run.count(f"catalog-region-{creg or ('same' if spec['same_region'] else 'copy')}")
@@ -569,6 +621,18 @@ def _eval_case(run, drv, pending, spec, tag="gen"):
         # a region without magnitudes: S and M work as they are, L / CL replace it by the forecast's region (D40)
         first = [("CL", "inject"), ("L", "inject1")][::1 if spec["rn_seed"] % 2 else -1]
         calls = [("S", "inject"), ("M", "inject")] + first + [("BOUND", None), ("S", "inject"), ("L", "seed")]
+    elif creg in ("spatial-perm", "spatial-superset"):
+        # a magnitude-less region with other cells / another cell order: the M-test needs no region; L / CL grid the catalog on
+        # the FORECAST's region (the catalog's own spatial region is replaced), after which the S-test works on the same object.
+        # The S-test BEFORE such a binding is a genuine-defect candidate (AWAITING_DECISION, notes/C05.md): never executed.
+        first = [("CL", "inject"), ("L", "inject1")][::1 if spec["rn_seed"] % 2 else -1]
+        calls = [("M", "inject")] + first + [("BOUND", None), ("S", "inject"), ("CL", "inject"), ("L", "seed")]
+        run.count("awaiting-decision-skipped:s-test-on-catalog-own-spatial-region")
+    elif creg == "sm-othermags":
+        # the catalog carries a space-magnitude region with other magnitude edges: the M-test bins on the forecast's edges, the
+        # S-test on the (identical) cells; L / CL on such a catalog are a genuine-defect candidate (AWAITING_DECISION)
+        calls = [("M", "inject"), ("S", "inject"), ("M", "seed")]
+        run.count("awaiting-decision-skipped:catalog-own-space-magnitude-region-differs")
     if creg is None and spec["rn_seed"] % 3 == 0:
         calls.append((("CL", "S", "M")[spec["l_seed"] % 3], "seed"))
     if spec.get("long_run"):
@@ -585,7 +649,8 @@ def _eval_case(run, drv, pending, spec, tag="gen"):
             # side effect of the L / CL tests on a catalog without a space-magnitude region: the forecast's region is bound
             reg = getattr(cat, "region", None)
             ok = reg is not None and getattr(reg, "magnitudes", None) is not None and \
-                numpy.array_equal(numpy.asarray(reg.magnitudes, dtype=float), numpy.asarray(fore.magnitudes, dtype=float))
+                numpy.array_equal(numpy.asarray(reg.magnitudes, dtype=float), numpy.asarray(fore.magnitudes, dtype=float)) and \
+                (reg is fore.region or _same_cells(reg, fore.region))
             if not ok:
                 run.oracle_failure(case, "after likelihood_test / conditional_likelihood_test the observed catalog is not bound "
                                          "to the forecast's space-magnitude region")
